@@ -1,6 +1,7 @@
 package main
 
 import (
+	"reflect"
 	"encoding/hex"
 	"fmt"
 	"go/token"
@@ -81,6 +82,24 @@ func (m *Machine) lockOf(v Val) (*Cell, *lockState) {
 
 func (m *Machine) timeVal(wall uint64, ext Int) Val {
 	return Struct{F: []*Cell{m.newCell(CI(64, wall)), m.newCell(ext), m.newCell(Ptr{})}}
+}
+
+// dynStruct: the struct type behind an interface value (through pointers), nil if there is none
+func dynStruct(v Val) *types.Struct {
+	iv, ok := v.(Iface)
+	if !ok || iv.T == nil {
+		return nil
+	}
+	t := iv.T
+	for {
+		if p, ok := t.Underlying().(*types.Pointer); ok {
+			t = p.Elem()
+			continue
+		}
+		break
+	}
+	st, _ := t.Underlying().(*types.Struct)
+	return st
 }
 
 func timeExt(v Val) Int { return v.(Struct).F[1].V.(Int) }
@@ -205,6 +224,30 @@ func init() {
 			return nil
 		},
 		vrt + "ClearOverride": func(m *Machine, a []Val) Val { delete(m.overrides, a[0].(Str).C); return nil },
+		// FieldSpec(v, name): "<declaration index>|<asn1 struct tag>" of the named field of v's dynamic struct type
+		// (pointers dereferenced), read from the CURRENT source; "" when the type has no such field.
+		// FieldCount(v): number of fields of that struct type.
+		vrt + "FieldSpec": func(m *Machine, a []Val) Val {
+			st := dynStruct(a[0])
+			if st == nil {
+				m.incon("FieldSpec: not a struct value")
+			}
+			for i := 0; i < st.NumFields(); i++ {
+				if st.Field(i).Name() == a[1].(Str).C {
+					return Str{C: fmt.Sprintf("%d|%s", i, reflect.StructTag(st.Tag(i)).Get("asn1"))}
+				}
+			}
+			m.incon("harness out of date: the struct has no field " + a[1].(Str).C)
+			return Str{C: ""}
+		},
+		vrt + "OutOfDate": func(m *Machine, a []Val) Val { m.incon("harness out of date: " + a[0].(Str).C); return nil },
+		vrt + "FieldCount": func(m *Machine, a []Val) Val {
+			st := dynStruct(a[0])
+			if st == nil {
+				m.incon("FieldCount: not a struct value")
+			}
+			return CI(64, uint64(st.NumFields()))
+		},
 		vrt + "AllowPanics":   func(m *Machine, a []Val) Val { m.allowPanics = a[0].(Bool).C; return nil },
 		vrt + "StepBudget": func(m *Machine, a []Val) Val {
 			m.maxSteps = m.steps + int64(a[0].(Int).C)
